@@ -80,12 +80,19 @@ namespace osmium {
 
         namespace detail {
 
+            class NodeRefSegment;
+
             class ProtoRing {
+                std::vector<NodeRefSegment*> m_segments;
                 std::vector<ProtoRing*> m_inner;
                 ProtoRing* m_outer_ring = nullptr;
+                int64_t m_sum = 0;
             public:
                 bool is_outer() const noexcept { return !m_outer_ring; }
                 const std::vector<ProtoRing*>& inner_rings() const noexcept { return m_inner; }
+                inline void add_segment_back(NodeRefSegment* segment);
+                inline void join_backward(ProtoRing& other);
+                inline void reverse();
             };
 
             class NodeRefSegment {
@@ -104,12 +111,39 @@ namespace osmium {
                 ProtoRing* ring() const noexcept { return m_ring; }
                 bool is_reverse() const noexcept { return m_reverse; }
                 bool is_done() const noexcept { return m_ring != nullptr; }
+                void set_ring(ProtoRing* ring) noexcept { m_ring = ring; }
+                void reverse() noexcept { m_reverse = !m_reverse; }
+                int64_t det() const noexcept {
+                    const Location a = m_reverse ? m_second.location() : m_first.location();
+                    const Location b = m_reverse ? m_first.location() : m_second.location();
+                    return static_cast<int64_t>(a.x()) * b.y() - static_cast<int64_t>(a.y()) * b.x();
+                }
                 void flip() noexcept {                                                           // S3: key fields written
                     const NodeRef tmp = m_first;
                     m_first = m_second;
                     m_second = tmp;
                 }
             };
+
+            inline void ProtoRing::add_segment_back(NodeRefSegment* segment) {
+                m_segments.push_back(segment);
+                segment->set_ring(this);
+                m_sum += segment->det();
+            }
+
+            inline void ProtoRing::join_backward(ProtoRing& other) {
+                for (auto it = other.m_segments.rbegin(); it != other.m_segments.rend(); ++it) {
+                    add_segment_back(*it);
+                    (*it)->reverse();                                                            // A1: reversed after det() was added
+                }
+            }
+
+            inline void ProtoRing::reverse() {
+                for (NodeRefSegment* segment : m_segments) {
+                    segment->reverse();
+                }
+                std::reverse(m_segments.begin(), m_segments.end());                              // A1: sum not negated
+            }
 
             inline bool operator==(const NodeRefSegment& lhs, const NodeRefSegment& rhs) noexcept {
                 return lhs.first().location() == rhs.first().location() && lhs.second().location() == rhs.second().location();
@@ -133,7 +167,11 @@ namespace osmium {
                 NodeRefSegment& back() { return m_segments.back(); }
                 const NodeRefSegment& operator[](std::size_t n) const noexcept { return m_segments[n]; }
                 NodeRefSegment& operator[](std::size_t n) noexcept { return m_segments[n]; }
-                void add(const NodeRef& a, const NodeRef& b) { m_segments.emplace_back(a, b); }
+                void add(const NodeRef& a, const NodeRef& b) {
+                    if (a.ref() != b.ref()) {                                                    // G5: ids differ, locations may not
+                        m_segments.emplace_back(a, b);
+                    }
+                }
                 void sort() { std::sort(m_segments.begin(), m_segments.end()); }
 
                 void erase_duplicate_segments(ProblemReporter* problem_reporter, uint64_t& duplicate_segments) {
@@ -306,6 +344,9 @@ namespace osmium {
                     }                                                                            // P2: count never tested
                     create_locations_list();
                     find_split_locations();
+                    if (m_split_locations.size() >= 100) {                                       // P4: exactly 100 is inside the domain
+                        return false;
+                    }
                     create_rings_simple_case();
                     return true;
                 }
@@ -344,6 +385,10 @@ void c10pos_driver(osmium::memory::Buffer& buffer) {
     (void)assembler(buffer);
     osmium::area::detail::NodeRefSegment s;
     s.flip();
+    osmium::area::detail::ProtoRing r1;
+    osmium::area::detail::ProtoRing r2;
+    r1.join_backward(r2);
+    r1.reverse();
     (void)assembler.get_next_segment(osmium::Location{});
     (void)assembler.find_enclosing_ring(&s);
 }
